@@ -38,6 +38,7 @@ type c07Stats struct {
 	opHist                                                                 [64]int
 	maxRegs, maxConsts, maxCode, maxUpv, maxDepth                          int
 	movenTailTargets, loopImplicitRegs                                     int
+	fragCompiled, fragCompileErr, fragWords                                int
 	parseErrSample                                                         string
 }
 
@@ -227,6 +228,8 @@ func c07firstLine(s string) string {
 //	expect <hex>          expected outcome of running the program ("ok:<results>")
 //	norun                 do not execute (programs that do not terminate quickly by construction)
 //	words <seed> <n>      differential test of the decoders on n random words
+//	frag <prog>           a program of the modelled compiler fragment (C01M token language): real prototype vs
+//	                      Lean `fragProto`, `FragOK`, `wf` (c07_frag.go)
 func execC07(ops []Op) []string {
 	var src strings.Builder
 	expect, run, srcRef := "", true, ""
@@ -245,6 +248,8 @@ func execC07(ops []Op) []string {
 			expect = string(b)
 		case "norun":
 			run = false
+		case "frag":
+			out = append(out, execFrag(op.Args)...)
 		case "words":
 			seed, _ := strconv.ParseUint(op.Args[1], 10, 64)
 			n, _ := strconv.Atoi(op.Args[2])
@@ -401,7 +406,7 @@ func runC07(run *Run) {
 	if run.Tier == "thorough" {
 		nOrd, nAdv = 50000, 0 // 0 = full adversarial grid
 	}
-	run.Rule = "random Lua programs (all statement kinds incl. goto/labels, closures, varargs, method calls, table constructors; all operators, nested) plus an adversarial profile (190-201 locals, 255/256/257 and 511/512/513 constants, 50/51/25500/25550/25551/25600 array fields, 10^4 hash fields, nesting depth 200, 250-300 upvalues, jumps of ±(2^17-1, 2^17, 2^17+1) for every loop kind, if/else and goto, 131071-131074 labels, >2^18 constants) compiled by the real parse.Parse+lua.Compile; every FunctionProto is decided by the Lean verifier wf (translation validation); distinct = distinct top-level statement-kind skeletons among cases with >= 3 statements"
+	run.Rule = "random Lua programs (all statement kinds incl. goto/labels, closures, varargs, method calls, table constructors; all operators, nested) plus an adversarial profile (190-201 locals, 255/256/257 and 511/512/513 constants, 50/51/25500/25550/25551/25600 array fields, 10^4 hash fields, nesting depth 200, 250-300 upvalues, jumps of ±(2^17-1, 2^17, 2^17+1) for every loop kind, if/else and goto, 131071-131074 labels, >2^18 constants) compiled by the real parse.Parse+lua.Compile; every FunctionProto is decided by the Lean verifier wf (translation validation); plus `frag` cases (TEST of the tie behind theorem compile_fragment_wf): programs of the modelled compiler fragment (conditions, logical/relational operators, local/global assignment, if/while/repeat/return/local; random, deep conditions x 12 contexts, nested relational temporaries, 150-200 chunk locals around maxRegisters, constant indices around 255/256, MOVE runs up to 199, empty programs) compiled by the real front-end and compared field by field with the Lean fragProto (compile model -> patchCode -> toProto), FragOK and wf evaluated on the result; distinct = distinct top-level statement-kind skeletons among cases with >= 3 statements"
 	run.Assume = []string{
 		"the abstract VM `step` (Model/Verifier.lean) lists every slice index / register read of /repo/_vm.go per opcode; sampled by executing the compiled ordinary programs under recover (a Go index panic in wf-approved code is reported)",
 		"register writes cannot fault (reg.Set/SetNumber/SetTop/CopyRange/FillNil call checkSize first) and reg.array never shrinks, so only register reads are obligations of wf_sound",
@@ -422,6 +427,13 @@ func runC07(run *Run) {
 		a.Idx = 1000000 + i
 		cases = append(cases, a)
 	}
+	frag := fragCases(root.Fork(8888888), run.Tier == "thorough")
+	cases = append(cases, frag...)
+	fragFam := map[string]int{}
+	for _, c := range frag {
+		fragFam[c.Note]++
+	}
+	run.Extra["fragment_families(tie of fragProto/FragOK, theorem compile_fragment_wf)"] = fragFam
 	for _, k := range []int{len(loadCorpus("C07")), len(loadCorpus("C07")) + 1} {
 		if k < len(cases) {
 			var src []string
@@ -440,6 +452,10 @@ func runC07(run *Run) {
 	reasons := map[string]int{}
 	reNum := regexp.MustCompile(`(proto|pc)=\d+`)
 	for _, f := range run.Failures {
+		if strings.HasPrefix(f.Reply, "MODEL P ") {
+			reasons["MODEL frag: the real prototype differs from the Lean fragProto (compile model / patchCode / toProto)"]++
+			continue
+		}
 		reasons[reNum.ReplaceAllString(f.Reply, "$1=N")]++
 	}
 	if len(reasons) > 0 {
@@ -463,7 +479,8 @@ func runC07(run *Run) {
 	run.Hist = map[string]int{"programs_compiled": c07.compiled, "parse_errors(generator)": c07.parseErr, "compile_errors": c07.compileErr,
 		"protos_verified": c07.protos, "code_words_verified": c07.words, "ran_ok": c07.ranOK, "ran_lua_error": c07.ranErr, "ran_timeout": c07.ranTimeout,
 		"max_NumUsedRegisters": c07.maxRegs, "max_constants": c07.maxConsts, "max_code_len": c07.maxCode, "max_upvalues": c07.maxUpv, "max_proto_depth": c07.maxDepth,
-		"adversarial_cases": len(adv)}
+		"adversarial_cases": len(adv),
+		"frag_programs_compiled(FragOK instances)": c07.fragCompiled, "frag_compile_errors(register overflow)": c07.fragCompileErr, "frag_code_words": c07.fragWords}
 	for k, v := range c07.compileErrKinds {
 		run.Hist["compile_error:"+k] = v
 	}
